@@ -12,11 +12,15 @@ def run(chk, replay=None):
     # contracts reject as well)
     evs_all = []
     profiles = ("release", "relcheck")
+    # a replay of a consumer-run event (second leg) only needs the release dump as the input of the flow model
+    flow_replay = bool(replay) and replay["event"].get("op") in ("flow", "flow2")
     if replay:
-        profiles = (replay["event"].get("profile", "release"),)
+        profiles = ("release",) if flow_replay else (replay["event"].get("profile", "release"),)
     for profile in profiles:
         trace = os.path.join(w, "trace_%s.ndjson" % profile)
         core.run_driver(["c20", "--seed", chk.seed, "--profile", profile], trace, profile=profile)
+        if flow_replay:
+            continue
         if replay:
             core.replay_filter(trace, replay)
         res = core.validate_trace("params/ParamsTrace.tla", "ParamsTrace.cfg", trace, timeout=1700, tag="ParamsTrace-" + profile,
@@ -39,7 +43,8 @@ def run(chk, replay=None):
         if e["op"] == "stage2":
             return ("s", e["table"], e["b2"]) if e.get("used") else None
         return ("c", e["bits"], e["lgsize"]) if e.get("row") else None
-    chk.count(evs_all, key)
+    if not flow_replay:
+        chk.count(evs_all, key)
     chk.rule = ("exhaustive dump: bit lengths 1..512 x two shapes of n (smallest, 1 mod 8 / largest, 7 mod 8) x use_double x "
                 "{siqs, mpqs, qs, cls}; ~2000 log-spaced B2 plus every discovered row and every midpoint between rows +-1 ulp for "
                 "both stage-2 tables; modulus bits 1..512 x power-of-two sizes 16..2^20 for the convolution dispatch; all computed by "
@@ -54,6 +59,8 @@ def run(chk, replay=None):
                                    for t in ("ecm", "pm1")}
     chk.cov["conv_rows_seen"] = len({(e["fsize"], e["logpack"], e["stride"]) for e in evs_all if e["op"] == "conv" and e["row"]})
     chk.cov["panics_in_parameter_functions"] = sum(1 for e in evs_all if "outcome" in e)
+    if os.environ.get("VERIF_C20_FLOW", "1") != "0" and (flow_replay or not replay):
+        flow(chk, w, replay if flow_replay else None)
     for e in evs_all[:: max(1, len(evs_all) // 5)]:
         chk.sample({k: e[k] for k in e if k in ("op", "case", "alg", "bits", "dbl", "table", "b2", "row", "lgsize")})
     chk.assumptions += ["TLC, SANY, CommunityModules Json/IOUtils/SequencesExt", "spec/lib/BigNat",
@@ -63,3 +70,186 @@ def run(chk, replay=None):
                         "supported sizes: qs <= 400 and mpqs <= 448 bits (guards in the code), siqs and class group <= 448 bits (same 256-bit "
                         "polynomial arithmetic); larger sizes are evaluated but only reported as notes",
                         "largest factor-base prime bounded by the fb8-th and (2 fb+40)-th primes as enumerated by fbase::primes"]
+
+
+# ------------------------------------------------------------------------------------------------------------
+# second leg: the parameters flow into their real consumers (spec/params/ParamFlow.tla, ParamFlowTrace.tla)
+# ------------------------------------------------------------------------------------------------------------
+def _merge_shapes(shapes):
+    """one run per (consumer, size, switch, residue class) / (table, B2): the reasons and sides are merged"""
+    sieve, s2 = {}, {}
+    for s in shapes:
+        if s["fam"] in ("ecm", "pm1"):
+            k = (s["fam"], s["b2"])
+            d = s2.setdefault(k, dict(s, side=set()))
+            d["side"].add(s["side"])
+        else:
+            k = (s["fam"], s["bits"], s["dbl"], s["shape"])
+            d = sieve.setdefault(k, dict(s, side=set(), why=set()))
+            d["side"].add(s["side"])
+            d["why"].add(s["why"])
+    out = []
+    for k in sorted(sieve):
+        d = sieve[k]
+        out.append(dict(d, side="+".join(sorted(d["side"])), why="+".join(sorted(d["why"]))))
+    for k in sorted(s2, key=lambda k: (k[0], float(k[1]))):
+        d = s2[k]
+        out.append(dict(d, side="+".join(sorted(d["side"]))))
+    return out
+
+
+def flow(chk, w, replay=None):
+    import concurrent.futures as cf
+    import json
+    import random
+    thorough = chk.tier == "thorough"
+    rel = core.read_ndjson(os.path.join(w, "trace_release.ndjson"))
+    dump_p, dump_s = os.path.join(w, "flow_dump_p.ndjson"), os.path.join(w, "flow_dump_s.ndjson")
+    core.write_ndjson(dump_p, [e for e in rel if e["op"] == "params"])
+    core.write_ndjson(dump_s, [e for e in rel if e["op"] == "stage2"])
+    env = {"DUMP_P": dump_p, "DUMP_S": dump_s}
+    # (M) the flow model over the dump of the real functions: NoStuck + FlowIsContract; prints the shapes
+    # The dump is produced by the code under test, so a stuck flow is a statement about the code, not about the model: TLC goes
+    # on (-continue) so that every shape is still printed, and the verdict comes from the Strict predicates (the first leg on the
+    # same dumped values, ParamsOK on the parameters logged by every consumer run).  A stuck flow without any Strict rejection
+    # would mean that the composition and the contracts disagree: that is our error (exit 2).
+    r = core.model_check("params/ParamFlow.tla", "ParamFlow.cfg", workers=min(4, core.NCPU), timeout=1200, env=env, extra=["-continue"],
+                         expect_error=True)
+    stuck = "NoStuck" in r["violated"] or "FlowIsContract" in r["violated"]
+    chk.add_mc(r, invariants_expected_to_hold=not stuck)
+    if stuck:
+        if not (chk.violations or chk.known):
+            raise core.ToolError("ParamFlow: a flow is stuck on the dump although every contract of the first leg holds")
+        chk.notes.append({"note": "flow model: some flows are stuck on the dumped parameters (see the violations of the first leg)",
+                          "invariants": r["violated"]})
+    shapes = []
+    seen = set()
+    for t in core.tuples(r["out"], "SHAPE"):
+        if t[1] not in seen:
+            seen.add(t[1])
+            shapes.append(json.loads(t[1]))
+    if not shapes:
+        raise core.ToolError("ParamFlow printed no shapes")
+    chk.cov["flow_model_shapes"] = len(shapes)
+    # non-vacuity: a deliberately broken reading of the dump must get stuck (all three in thorough, one in quick)
+    muts = ["interval_unaligned", "too_few_primes", "d2_not_pow2"]
+    if not replay:
+        for m in (muts if thorough else [muts[int(chk.seed) % 3]]):
+            rm = core.model_check("params/ParamFlow.tla", "ParamFlow_mut_%s.cfg" % m, workers=min(4, core.NCPU), timeout=1200, env=env,
+                                  expect_error=True)
+            chk.add_mc(rm, invariants_expected_to_hold=False)
+            if "NoStuck" not in rm["violated"]:
+                raise core.ToolError("non-vacuity: ParamFlow with the broken reading '%s' does not violate NoStuck" % m)
+    runs = _merge_shapes(shapes)
+    sieve = [s for s in runs if s["fam"] not in ("ecm", "pm1")]
+    s2 = [s for s in runs if s["fam"] in ("ecm", "pm1")]
+    chk.cov["flow_breakpoint_runs_planned"] = {f: sum(1 for s in runs if s["fam"] == f) for f in sorted({s["fam"] for s in runs})}
+    rnd = random.Random(int(chk.seed) * 7919 + 20)
+    plans = {}
+    if thorough:
+        plans["release"] = (runs, 300, 1 << 20)
+        plans["relcheck"] = (runs, 300, 1 << 18)
+    else:
+        # quick: every size up to 260 bits and every stage-2 request up to d2 = 16384 in release; a sample of the large sizes;
+        # a sample of everything with the checks of the repository's own tests (overflow, debug assertions)
+        small = [s for s in sieve if s["bits"] <= 260]
+        big = [s for s in sieve if s["bits"] > 260]
+        cheap_big = [s for s in big if s["fam"] in ("siqs", "cls")]
+        plans["release"] = (small + rnd.sample(cheap_big, min(10, len(cheap_big))) + rnd.sample(big, min(4, len(big))) + s2, 230, 16384)
+        plans["relcheck"] = (rnd.sample(small, min(90, len(small))) + rnd.sample(cheap_big, min(3, len(cheap_big))) + rnd.sample(s2, min(60, len(s2))),
+                             200, 4096)
+    if replay:
+        prof = replay["event"].get("profile", "release")
+        plans = {prof: (runs, 1000, 1 << 22)}
+    evs_all = []
+    for profile, (plan, real_max, maxd2) in plans.items():
+        if replay:
+            want = replay["event"]
+            plan = [s for s in plan if s["fam"] == want.get("fam") and
+                    (s.get("b2") == want.get("b2") if "b2" in want else (s.get("bits") in (want.get("bits"), want.get("nbits")) and s.get("dbl") == want.get("dbl")
+                                                                          and s.get("shape") == want.get("shape")))]
+        # heavy runs first inside each part (round-robin over the parts)
+        plan = sorted(plan, key=lambda s: -(s.get("bits", 0)))
+        shp = os.path.join(w, "flow_shapes_%s.ndjson" % profile)
+        core.write_ndjson(shp, plan)
+        parts = max(1, min(core.NCPU, 12, len(plan)))
+        core.build_harness(profile)
+
+        def one(i, plan=plan, profile=profile, parts=parts, shp=shp, real_max=real_max, maxd2=maxd2):
+            # the code under test can take the driver process down (abort): the death becomes an event of the shape that was
+            # in progress, and the part is resumed after it
+            got, start = [], 0
+            for attempt in range(25):
+                out = os.path.join(w, "flow_%s_part%02d_%02d.ndjson" % (profile, i, attempt))
+                for f in (out, out + ".cur"):
+                    if os.path.exists(f):
+                        os.unlink(f)
+                rc = core.run_driver(["c20", "--mode", "flow", "--seed", chk.seed, "--profile", profile, "--shapes", shp, "--part", i,
+                                      "--parts", parts, "--real-max", real_max, "--maxd2", maxd2, "--from", start], out, profile=profile,
+                                     timeout=5400, allow_death=True)
+                if os.path.exists(out):
+                    for line in open(out):
+                        try:
+                            got.append(json.loads(line))
+                        except ValueError:
+                            pass   # a line cut by the death of the process
+                if not isinstance(rc, int):
+                    return got
+                cur = open(out + ".cur").read().strip() if os.path.exists(out + ".cur") else ""
+                if not cur.isdigit():
+                    raise core.ToolError("flow driver died (%s) outside a consumer run" % rc)
+                j = int(cur)
+                sh = plan[j]
+                base = {"case": "flow/%s/died/%s/%d" % (sh["fam"], profile, j), "fam": sh["fam"], "side": sh["side"], "profile": profile,
+                        "outcome": "abort", "msg": "the process died with status %s during this run" % rc, "loc": ""}
+                if sh["fam"] in ("ecm", "pm1"):
+                    base.update({"op": "flow2", "m": "pm1" if sh["fam"] == "pm1" else "ecm", "table": sh["fam"], "b2": sh["b2"]})
+                else:
+                    base.update({"op": "flow", "alg": sh["fam"], "bits": sh["bits"], "nbits": sh["bits"], "dbl": sh["dbl"], "shape": sh["shape"],
+                                 "why": sh["why"], "kind": "first", "abort": 0, "units_done": 0})
+                got.append(base)
+                start = j + 1
+            raise core.ToolError("flow driver died 25 times in part %d" % i)
+        with cf.ThreadPoolExecutor(max_workers=parts) as ex:
+            outs = list(ex.map(one, range(parts)))
+        evs = []
+        for o in outs:
+            evs += o
+        trace = os.path.join(w, "flow_%s.ndjson" % profile)
+        core.write_ndjson(trace, evs)
+        if replay:
+            core.replay_filter(trace, replay)
+        res = core.validate_trace("params/ParamFlowTrace.tla", "ParamFlowTrace.cfg", trace, timeout=1700, tag="flow-" + profile)
+        chk.add_tv(res)
+        evs_all += core.read_ndjson(trace)
+
+    def key(e):
+        if e["op"] == "flow":
+            return ("f", e["alg"], e["bits"], e["dbl"], e["shape"], e["kind"], e["profile"])
+        return ("f2", e["m"], e["b2"], e["profile"]) if e.get("hdr") else None
+    chk.count(evs_all, key)
+    cov = {}
+    for e in evs_all:
+        fam = e["alg"] if e["op"] == "flow" else e["m"]
+        c = cov.setdefault(fam, {"runs": 0, "sizes_or_requests": set(), "kinds": {}, "ended": {}, "outcomes": {}, "profiles": {}})
+        c["runs"] += 1
+        c["sizes_or_requests"].add(e["bits"] if e["op"] == "flow" else e["b2"])
+        for f, v in (("kinds", e.get("kind", "stage2")), ("ended", e.get("ended") or "-"), ("profiles", e["profile"])):
+            c[f][v] = c[f].get(v, 0) + 1
+        if "outcome" in e:
+            c["outcomes"][e["outcome"]] = c["outcomes"].get(e["outcome"], 0) + 1
+    for c in cov.values():
+        c["sizes_or_requests"] = len(c["sizes_or_requests"])
+    chk.cov["flow"] = cov
+    chk.cov["flow_stage2_reached"] = sum(1 for e in evs_all if e["op"] == "flow2" and (e.get("nb", 0) > 0 or e.get("conv")))
+    chk.rule += ("; second leg: one real consumer run per (consumer, breakpoint, side) printed by the flow model ParamFlow.tla from the dump "
+                 "(both sides of every size where a step-valued parameter changes or a numeric one kinks, the consumers' size guards +-1, a "
+                 "32-bit grid; every stage-2 row and both neighbours of every selection change), on a constructed n of exactly that size; "
+                 "non-trivial = the consumer was entered (stage-2 header seen for ECM/P+-1)")
+    for e in evs_all[:: max(1, len(evs_all) // 3)][:3]:
+        chk.sample({k: e[k] for k in e if k in ("op", "case", "alg", "m", "bits", "dbl", "kind", "b2", "side", "why", "ended")})
+    chk.assumptions += ["second leg: breakpoints are derived by TLC from the dump of the real parameter functions (value changes of step-valued "
+                        "parameters, kinks of at least 1/8 of numeric ones); a `match` arm that changes nothing visible in any dumped parameter "
+                        "is not a breakpoint",
+                        "second leg: sieve consumers are run to the end of their first unit of work (first polynomial / first block pair / first "
+                        "A value) or to completion below 100 bits; stage-2 rows above the tier's d2 bound are covered by the contracts only"]
